@@ -164,6 +164,9 @@ def configs(tier, seed):
     out.append(dict(base, aw=6, dw=32, gran=8, subs=[sub(1, 32, 8, named=True),
                                                      sub(3, 32, 8, align_to=7, inspect_before=True, addr=96, feat=["err"]),
                                                      sub(2, 32, 8, inspect_before=True, addr=32)]))
+    # the smallest buses there are: a decoder with one address bit, subordinates with one and with no address bits
+    out.append(dict(base, aw=1, dw=8, gran=8, subs=[sub(1, 8, 8)]))
+    out.append(dict(base, aw=2, dw=16, gran=8, subs=[sub(0, 16, 8), sub(1, 16, 8, named=True)]))
     # many subordinates (a count that is not a multiple of 2, 4 or 8)
     for count in ((11,) if tier == "quick" else (11, 19, 23)):
         out.append(dict(base, aw=8, dw=16, gran=8,
